@@ -249,7 +249,7 @@ fn check_back_references(pattern: &str, regex_type: RegexType) -> Result<(), Box
             ')' if extended => {
                 open.pop();
             }
-            '[' => rest = after_bracket(rest),
+            '[' => rest = after_bracket(rest, regex_type),
             _ => {}
         }
     }
@@ -292,7 +292,7 @@ fn check_intervals(pattern: &str, regex_type: RegexType) -> Result<(), Box<dyn E
             chars.next();
             rest = chars.as_str();
         } else if ch == '[' {
-            rest = after_bracket(&rest[1..]);
+            rest = after_bracket(&rest[1..], regex_type);
         } else {
             rest = &rest[ch.len_utf8()..];
         }
@@ -302,8 +302,10 @@ fn check_intervals(pattern: &str, regex_type: RegexType) -> Result<(), Box<dyn E
 
 /// What follows the bracket expression whose "[" has just been read (nothing
 /// when it is never closed): a "]" first (after "^") is a member, and "[:",
-/// "[." and "[=" run to their own ":]", ".]" and "=]".
-fn after_bracket(s: &str) -> &str {
+/// "[." and "[=" run to their own ":]", ".]" and "=]" - except that GNU's
+/// emacs syntax has no classes: there "[:" is two members.
+fn after_bracket(s: &str, regex_type: RegexType) -> &str {
+    let classes = !matches!(regex_type, RegexType::Emacs);
     let mut s = s.strip_prefix('^').unwrap_or(s);
     s = s.strip_prefix(']').unwrap_or(s);
     loop {
@@ -315,6 +317,7 @@ fn after_bracket(s: &str) -> &str {
         }
         let inner = &s[i + 1..];
         s = match inner.chars().next() {
+            Some(':') if !classes => inner,
             Some(delim @ (':' | '.' | '=')) => match inner[1..].find(&format!("{delim}]")) {
                 Some(j) => &inner[1 + j + 2..],
                 None => return "",
